@@ -409,7 +409,7 @@ def fixture_notebooks():
 # ------------------------------------------------------------------ targeted three-way scenarios
 SCENARIOS = ['concurrent-insert', 'concurrent-insert', 'delete-vs-edit', 'same-line', 'different-lines', 'both-outputs', 'both-metadata',
              'insert-next-to-edit', 'delete-vs-transient', 'same-change', 'both-nbmeta', 'both-attachments', 'minor', 'replace-vs-transient', 'remove-output-vs-transient', 'dup-around-shared',
-             'replace-vs-insert', 'two-conflict-regions', 'output-mixed-keys', 'minor-down', 'remove-key-vs-transient', 'stale-conflict-record', 'meta-nested-mixed', 'same-inline-edit-plus-insert', 'exotic-text-both']
+             'replace-vs-insert', 'two-conflict-regions', 'output-mixed-keys', 'minor-down', 'remove-key-vs-transient', 'stale-conflict-record', 'meta-nested-mixed', 'same-inline-edit-plus-insert', 'exotic-text-both', 'similar-insert-attachments']
 
 
 def similar_cell(rng, c, used):
@@ -484,6 +484,20 @@ def triple_scenario(rng, minor=None, first=None):
             else:
                 l['cells'][p:p] = xs + tail_l or [s]
                 r['cells'][p:p] = ys + tail_r or [long_cell(rng, minor, used)]
+        elif sc == 'similar-insert-attachments':
+            # both sides insert a similar markdown / raw cell at one position; the two cells carry different attachments
+            # (the inline-cells strategy combines them into one cell)
+            p = rng.randrange(n + 1)
+            s = long_cell(rng, minor, used, rng.choice(['markdown', 'markdown', 'raw']))
+            t = similar_cell(rng, s, used)
+            if 'attachments' not in s:
+                s['attachments'] = {'logo.png': {'image/png': B64[0]}, 'shared.png': {'image/png': B64[1]}}
+                t['attachments'] = rng.choice([{'plot.png': {'image/png': B64[2]}}, {'logo.png': {'image/png': B64[2]}},
+                                               {'shared.png': {'image/png': B64[1]}, 'extra.png': {'image/png': B64[0]}}])
+            if rng.random() < 0.5:
+                s, t = t, s
+            l['cells'][p:p] = [s]
+            r['cells'][p:p] = [t]
         elif not common:
             continue
         elif sc == 'delete-vs-edit':
